@@ -126,6 +126,10 @@ def run_case(case):
                 targets += [("origin-int-tuple", (0, 0, 0))]
                 if sz >= 0.5:  # (a unit-sized target is ~1e4 sizes away from the tiny start states: ill-conditioned)
                     targets += [("int-array", np.array([1, -2, 3]) * max(1, int(round(sz))))]
+                if hasattr(start, "vertices") and not case["prefix"]:
+                    # the target is a VIEW of the shape's own vertex array (shape.centroid = shape.vertices[1]):
+                    # the assigned point is the value the view holds at the time of the assignment
+                    targets += [("own-vertex-view", "view")]
                 if hasattr(start, "vertices"):
                     targets += [("malformed-2", (1.5, -2.5)), ("malformed-4", (1.0, 2.0, 3.0, 4.0)), ("malformed-None", None)]
             else:
@@ -161,8 +165,11 @@ def run_case(case):
                     if case["prefix"] or tag != "x2":
                         rep.nontrivial += 1
                     e1._reseed()
+                    if tag == "own-vertex-view":
+                        view = obj.vertices[1]
+                        val = np.array(view, float)  # what was assigned, for the comparisons below
                     try:
-                        setattr(obj, name, val)
+                        setattr(obj, name, view if tag == "own-vertex-view" else val)
                         raised = None
                     except Exception as ex:
                         raised = ex
